@@ -18,6 +18,7 @@ import (
 	"syscall"
 	"testing"
 	"time"
+	"unsafe"
 )
 
 // ------------------------------------------------------------------ violations / trials
@@ -411,6 +412,29 @@ func vcRawFD(c net.Conn) int {
 type vcCanary struct {
 	tasks int64
 	stop  int32
+}
+
+// vcPollerDoneWithInput reports whether the poller that serves connection c has finished the
+// batch in which it last published input for c (trace: a PollBatchEnd of that poller after the
+// connection's last InputAckAfterBook). Until then the poller is still on its way to start or
+// wake whoever consumes that input, and "nobody is handling it" is not a stuck state.
+func vcPollerDoneWithInput(mark uint64, c *connection) bool {
+	if c == nil || c.operator == nil {
+		return false
+	}
+	pollID := vcObjID(c.operator.poll)
+	connID := uintptr(unsafe.Pointer(c))
+	var lastIn uint64
+	done := false
+	for _, e := range vcTraceSince(mark) {
+		switch {
+		case int(e.Point) == vpInputAckAfterBook && e.Obj == connID:
+			lastIn, done = e.Seq, false
+		case int(e.Point) == vpPollBatchEnd && e.Obj == pollID && lastIn != 0 && e.Seq > lastIn:
+			done = true
+		}
+	}
+	return lastIn == 0 || done
 }
 
 func vcIsErr(err, target error) bool { return err != nil && errors.Is(err, target) }
